@@ -585,7 +585,9 @@ def shrink_scenario(sc):
     if sc['status'].get('pong_delay_us'):
         c = copy.deepcopy(sc)
         c['status']['pong_delay_us'] = 0
-        c['server']['conns'][0]['status']['pong_delay_us'] = 0
+        for cn in c['server']['conns']:
+            if cn.get('status', {}).get('pong_delay_us'):
+                cn['status']['pong_delay_us'] = 0
         yield c
     if sc['sched']['granularity'] != 'io':
         c = copy.deepcopy(sc)
